@@ -13,7 +13,7 @@ for u in registry.all_units():
         continue
     t0 = time.time()
     r = run_unit(u)
-    bad = [o for o in r["obligations"] if o["verdict"] not in ("proved", "reachable")]
+    bad = [o for o in r["obligations"] if o["verdict"] not in ("proved", "reachable", "vacuous")]
     print(f"{r['status']:9s} {time.time()-t0:6.1f}s {len(r['obligations']):5d} obl {len(bad):3d} not-proved  {u.name} {r['error'] or ''}")
     for o in r["obligations"]:
         if o in bad or verbose:
